@@ -7,7 +7,7 @@ What is *modelled* (contract in the docstring of each stub):
   * SHA-256d ids -> injective integer names; scripts -> an address name, '' (non-standard) or 'OP_RETURN';
   * Utxos (three size classes over byte-encoded stable maps) -> one finite map OutPoint -> (TxOut, Height);
   * the address index StableBTreeMap<Blob, ()> -> finite map keyed by AddressUtxo values ordered as their byte encoding orders
-    them: address, height DESCENDING, outpoint; the scan range of an address = its own keys from the offset on
+    them: address, height DESCENDING, outpoint (txid, then vout by its little-endian bytes); the scan range of an address = its own keys from the offset on
     (this is exactly what C01 kernel k1 decides at byte level);
   * balances StableBTreeMap<Address, u64> -> finite map.
 """
@@ -169,7 +169,22 @@ def au_cmp(it, a, b):
             return -1
         if it.branch(zt(ha) < zt(hb)):
             return 1
-    return cmp_values(it, a.fields[2].v, b.fields[2].v)
+    # outpoint: 32 txid bytes, then the vout in LITTLE-endian bytes (OutPoint::to_bytes) - not the numeric order of vout
+    oa, ob = a.fields[2].v, b.fields[2].v
+    c = cmp_values(it, oa.fields[0].v, ob.fields[0].v)
+    if c != 0:
+        return c
+    va, vb = oa.fields[1].v.t, ob.fields[1].v.t
+    if isinstance(va, int) and isinstance(vb, int):
+        ka, kb = va.to_bytes(4, 'little'), vb.to_bytes(4, 'little')
+        return -1 if ka < kb else (1 if ka > kb else 0)
+    for i in range(4):
+        xa, xb = (zt(va) / (1 << (8 * i))) % 256, (zt(vb) / (1 << (8 * i))) % 256
+        if it.branch(xa < xb):
+            return -1
+        if it.branch(xa > xb):
+            return 1
+    return 0
 
 
 CMP_HOOKS['AddressUtxo'] = au_cmp
